@@ -145,14 +145,16 @@ def _normalize_parsed_value_elements(
 
     list_items = notification_body.list_items
 
-    current_list_names: list[str] = next(
-        (x for x in _field_order_lists if len(x) == len(list_items)), []
+    current_list_names: list[str] | None = next(
+        (x for x in _field_order_lists if len(x) == len(list_items)), None
     )
+    if current_list_names is None:
+        raise ValueError(f"Unexpected number of list items: {len(list_items)}")
 
     for measure in list_items:
         element_name = current_list_names[measure.index]
 
-        if element_name == obis_map.FIELD_METER_DATETIME:
+        if hasattr(measure.value, "datetime"):
             dictionary[element_name] = measure.value.datetime
         else:
             scale = _FIELD_SCALING.get(element_name, None)
